@@ -622,7 +622,9 @@ class Ctx:
     # -- finish ------------------------------------------------------------
     def finish(self):
         os.makedirs(os.path.join(VERIF, "replays"), exist_ok=True)
-        os.makedirs(os.path.join(VERIF, "evidence"), exist_ok=True)
+        # evidence committed under /verif describes /repo only; a VERIF_REPO run keeps its own
+        evdir = os.path.join(VERIF, "evidence") if os.path.realpath(REPO) == "/repo" else os.path.join(COQ, "evidence")
+        os.makedirs(evdir, exist_ok=True)
         lines = []
         nviol = 0
         for key in self.known_hits:
@@ -678,7 +680,7 @@ class Ctx:
         ev = {"property_id": self.pid, "tier": self.tier, "seed": self.seed, "level": "proof",
               "coverage": cov, "assumptions": self.assumptions, "wall_s": round(wall, 2),
               "violations": nviol}
-        json.dump(ev, open(os.path.join(VERIF, "evidence", self.pid + ".json"), "w"), indent=1)
+        json.dump(ev, open(os.path.join(evdir, self.pid + ".json"), "w"), indent=1)
         for ln in lines:
             print(ln, flush=True)
         self.log("done in %.1fs: %d evaluations (%d distinct non-trivial), %d violation(s), %d known finding(s)" % (
